@@ -1,5 +1,6 @@
 import Proofs.HeapCkptAlias
 import Proofs.CkptGenEq
+import Proofs.CkptHelpGenEq
 
 /-!
 # C07 — a saved checkpoint restores an equivalent agent
@@ -382,4 +383,223 @@ example : Layout.Savable .new
   simp only [List.mem_cons, List.not_mem_nil, or_false] at hcp
   rcases hcp with rfl | rfl | rfl | rfl <;> decide
 
+/-! ## the checkpoint helpers on module trees (`HeapCkpt.Mod`; `Gen/CkptHelpGen.lean` generated by
+    harness/py2lean_ckpthelp.py from agilerl/utils/algo_utils.py)
+
+  The theorems above treat "a network's detached tensors are written to the file and written back" as one `saved`
+  entry of the fate table.  Here the helper BODIES are inside the model: a module is its `named_modules()` list
+  (every nesting depth), per sub-module the tensors `state_dict()` lists and `vars()`. -/
+section helpers
+open HeapCkpt.Mod CkptHelpGenEq
+
+/-- **(ii) what `get_detached_tensors` collects** — for every module tree (compiled or not) whose public tensor
+    attributes have pairwise distinct dotted names: exactly the tensor-valued entries of `vars(sub)` with a public
+    name, of every sub-module `named_modules()` lists (every nesting depth), keyed `prefix.name` (`name` at the
+    root), each once, in order; nothing `state_dict()` lists is collected (those are not in `vars()`). -/
+theorem C07_helpers_detached_exact (b : Bool) (t : Tree) (hnd : ((publicEntries t).map (·.1)).Nodup) :
+    getDetached (b, t) = publicEntries t ∧
+    ∀ key v, (key, v) ∈ getDetached (b, t) ↔
+      ∃ ps ∈ t, ∃ nv ∈ ps.2.2, pyIsTensor nv.2 = true ∧ pyStartsWith nv.1 ['_'] = false ∧
+        key = dotKey ps.1 nv.1 ∧ v = nv.2 := by
+  refine ⟨getDetached_eq b t hnd, fun key v => ?_⟩
+  rw [getDetached_eq b t hnd]
+  unfold publicEntries
+  simp only [List.mem_flatMap, List.mem_filterMap]
+  constructor
+  · rintro ⟨ps, hps, nv, hnv, h⟩
+    by_cases hc : (pyIsTensor nv.2 && !(pyStartsWith nv.1 ['_'])) = true
+    · simp only [hc, if_true, Option.some.injEq, Prod.mk.injEq] at h
+      simp only [Bool.and_eq_true, Bool.not_eq_true'] at hc
+      exact ⟨ps, hps, nv, hnv, hc.1, hc.2, h.1.symm, h.2.symm⟩
+    · simp [hc] at h
+  · rintro ⟨ps, hps, nv, hnv, h1, h2, rfl, rfl⟩
+    exact ⟨ps, hps, nv, hnv, by simp [h1, h2]⟩
+
+/-- the underscore filter is a real restriction of the code: a tensor attribute whose name starts with `_` is in no
+    state dict and is NOT collected (no module of AgileRL has one; the harness compares with an independent walk) -/
+theorem C07_helpers_detached_misses_private_witness :
+    let t : Tree := [([], ([], [(['_','b','u','f'], some ([2], 7)), (['s','u','p'], some ([2], 8))]))]
+    getDetached (false, t) = [(['s','u','p'], some ([2], 8))] := by
+  decide
+
+/-- **(i) round trip of the detached tensors, cell by cell.**  `saved` is any module tree; `f1` is the freshly built
+    module after the hooks and `load_state_dict` — all that is assumed about it is that every location where `saved`
+    holds a public detached tensor holds SOME tensor of the same shape (a parameter, a buffer or a hook-installed
+    tensor: `getattr` finds all three).  Then `load_detached_tensors(f1, get_detached_tensors(saved))` does not raise,
+    every such location holds the saved tensor afterwards, every other location (in particular everything
+    `load_state_dict` wrote) is untouched. -/
+theorem C07_helpers_roundtrip_detached (b : Bool) (saved f1 : Tree)
+    (hdot : ∀ x ∈ publicLocs saved, ∀ c ∈ x.1.2, c ≠ '.')
+    (hnd : ((publicLocs saved).map (·.1)).Nodup)
+    (hkeys : ((publicEntries saved).map (·.1)).Nodup)
+    (htgt : ∀ x ∈ publicLocs saved, ∃ cur, tensorAt f1 x.1.1 x.1.2 = some cur ∧ cur.1 = x.2.1) :
+    ∃ r, loadDetached (false, f1) (some (getDetached (b, saved))) = .ok (false, r) ∧
+      (∀ x ∈ publicLocs saved, tensorAt r x.1.1 x.1.2 = some x.2) ∧
+      (∀ p n, (p, n) ∉ (publicLocs saved).map (·.1) → tensorAt r p n = tensorAt f1 p n) := by
+  obtain ⟨r, hr, hall, hframe, _⟩ := loop_spec (publicLocs saved) f1 hdot hnd htgt
+  rw [getDetached_eq b saved hkeys, publicEntries_eq_locs]
+  cases hL : publicLocs saved with
+  | nil =>
+    refine ⟨f1, rfl, by simp, fun _ _ _ => rfl⟩
+  | cons x rest =>
+    rw [hL] at hr hall hframe
+    refine ⟨r, ?_, hall, hframe⟩
+    unfold loadDetached
+    simpa [pyOptDictTruthy] using hr
+
+/-- **(i)+(iii) every tensor reachable from the module has the saved value, whatever the hooks installed.**  The load
+    paths run `mutation_hook()` BEFORE `load_state_dict` and `load_detached_tensors`
+    (`C07_source_translation_phase_order`).  Let `hook` be ANY function on the fresh module and `lsd` torch's
+    `load_state_dict`, of which only its contract on this architecture is used (`hreg`: afterwards every tensor the
+    saved state dict lists is in place; `htgt`: the locations of the saved detached tensors hold tensors of the saved
+    shapes).  Then after `load_detached_tensors` EVERY tensor of the saved module — registered or detached — is at its
+    location with its saved value: the saved value wins at every cell, no value a hook derived from the fresh
+    (randomly initialised) networks survives.  That is what the property needs: a hook-derived value is faithful
+    only if the original had the two tensors in step at save time (`C07_rederived_faithful_iff_synced`), which a
+    critic's encoder copy or a target network in general has not. -/
+theorem C07_helpers_roundtrip_all_tensors (b : Bool) (saved fresh : Tree) (hook lsd : Tree → Tree)
+    (hdot : ∀ x ∈ publicLocs saved, ∀ c ∈ x.1.2, c ≠ '.')
+    (hnd : ((publicLocs saved ++ regLocs saved).map (·.1)).Nodup)
+    (hkeys : ((publicEntries saved).map (·.1)).Nodup)
+    (hreg : ∀ x ∈ regLocs saved, tensorAt (lsd (hook fresh)) x.1.1 x.1.2 = some x.2)
+    (htgt : ∀ x ∈ publicLocs saved, ∃ cur, tensorAt (lsd (hook fresh)) x.1.1 x.1.2 = some cur ∧ cur.1 = x.2.1) :
+    ∃ r, loadDetached (false, lsd (hook fresh)) (some (getDetached (b, saved))) = .ok (false, r) ∧
+      ∀ x ∈ publicLocs saved ++ regLocs saved, tensorAt r x.1.1 x.1.2 = some x.2 := by
+  rw [List.map_append] at hnd
+  obtain ⟨hnd1, _, hdisj⟩ := List.nodup_append.mp hnd
+  obtain ⟨r, hr, hall, hframe⟩ := C07_helpers_roundtrip_detached b saved (lsd (hook fresh)) hdot hnd1 hkeys htgt
+  refine ⟨r, hr, fun x hx => ?_⟩
+  rcases List.mem_append.mp hx with h | h
+  · exact hall x h
+  · rw [hframe x.1.1 x.1.2 (fun hin => hdisj _ hin _ (List.mem_map_of_mem h) rfl)]
+    exact hreg x h
+
+/-- **(iii) the order matters**: the same steps with the hook LAST (a hook that re-derives the critic's encoder copy
+    `enc.w` from the restored actor value 5, as `share_encoder_parameters` does) lose the saved value 9 of the copy,
+    which was out of step with the actor at save time; the order of the code restores 9 whatever the hook wrote. -/
+theorem C07_helpers_hook_last_witness :
+    let saved : Tree := [([], ([(['h'], ([1], 3))], [])), (['e','n','c'], ([], [(['w'], some ([2], 9))]))]
+    let fresh : Tree := [([], ([(['h'], ([1], 0))], [])), (['e','n','c'], ([], [(['w'], some ([2], 1))]))]
+    let hook : Tree → Tree := fun t => treeCopy t ['e','n','c'] ['w'] ([2], 5)
+    let lsd : Tree → Tree := fun t => treeCopy t [] ['h'] ([1], 3)
+    loadDetached (false, lsd (hook fresh)) (some (getDetached (false, saved))) = .ok (false, saved) ∧
+    loadDetached (false, lsd fresh) (some (getDetached (false, saved))) = .ok (false, saved) ∧
+    tensorAt (hook saved) ['e','n','c'] ['w'] = some ([2], 5) ∧ tensorAt saved ['e','n','c'] ['w'] = some ([2], 9) := by
+  refine ⟨?_, ?_, ?_, ?_⟩ <;> rfl
+
+/-- as coded, a saved tensor whose location holds no tensor of the same shape in the receiver is SKIPPED silently
+    (left as constructed), and a dotted name whose sub-module does not exist raises AttributeError -/
+theorem C07_helpers_load_mismatch_witness :
+    let f : Tree := [([], ([], [(['w'], some ([3], 1))]))]
+    loadDetached (false, f) (some [(['w'], some ([2], 9))]) = .ok (false, f) ∧
+    loadDetached (false, f) (some [(['x'], some ([2], 9))]) = .ok (false, f) ∧
+    loadDetached (false, f) (some [(['m','.','w'], some ([2], 9))]) = .error "AttributeError" ∧
+    loadDetached (false, f) none = .ok (false, f) ∧ loadDetached (true, f) (some []) = .ok (true, f) := by
+  refine ⟨?_, ?_, ?_, ?_, ?_⟩ <;> rfl
+
+/-- **(iv) dotted names are exact**: `key.rpartition(".")` gives back (prefix, name) of the key
+    `get_detached_tensors` built (attribute names have no dot), distinct locations have distinct keys; and
+    `remove_compile_prefix` strips exactly `_orig_mod.` from every key of a compiled module's state dict, keeps a
+    state dict without such keys, and keeps the entries' order and values (`pyDictOf sd = sd` for distinct keys). -/
+theorem C07_helpers_dotted_names_exact :
+    (∀ p n : Name, (∀ c ∈ n, c ≠ '.') →
+      (pyRpartition (dotKey p n) '.').1 = p ∧ (pyRpartition (dotKey p n) '.').2.2 = n) ∧
+    (∀ p n p' n' : Name, (∀ c ∈ n, c ≠ '.') → (∀ c ∈ n', c ≠ '.') → dotKey p n = dotKey p' n' → p = p' ∧ n = n') ∧
+    (∀ sd : Dict Tensor, removeCompilePrefix (sd.map fun e => (origMod ++ '.' :: e.1, e.2)) = .ok (pyDictOf sd)) ∧
+    (∀ sd : Dict Tensor, (∀ e ∈ sd, pyStartsWith e.1 origMod = false) → removeCompilePrefix sd = .ok (pyDictOf sd)) ∧
+    (∀ sd : Dict Tensor, (sd.map (·.1)).Nodup → pyDictOf sd = sd) :=
+  ⟨rpartition_dotKey, dotKey_inj, removeCompilePrefix_compiled, removeCompilePrefix_plain, pyDictOf_nodup⟩
+
+/-- the state dict of a compiled module is the state dict of `_orig_mod` under the prefix (torch), so
+    `remove_compile_prefix(m.state_dict())` of a compiled module is the uncompiled module's state dict -/
+theorem C07_helpers_compiled_state_dict_witness :
+    let t : Tree := [([], ([(['h'], ([1], 3))], [])), (['e','n','c'], ([(['w'], ([2], 9))], []))]
+    removeCompilePrefix (pyStateDict (true, t)) = .ok (pyStateDict (false, t)) ∧
+    getDetached (true, t) = getDetached (false, t) := by
+  refine ⟨?_, ?_⟩ <;> rfl
+
+/-- … but the test is `startswith("_orig_mod")`, not "first path component is `_orig_mod`": a key of an UNcompiled
+    module whose first component merely starts with these characters loses that component, and the bare key
+    `_orig_mod` raises IndexError (no module of AgileRL has such names) -/
+theorem C07_helpers_compile_prefix_inexact_witness :
+    removeCompilePrefix [(['_','o','r','i','g','_','m','o','d','e','l','.','w'], 1)] = .ok [(['w'], 1)] ∧
+    removeCompilePrefix [(['_','o','r','i','g','_','m','o','d'], 1)] = .error "IndexError" := by
+  refine ⟨?_, ?_⟩ <;> rfl
+
+/-! non-vacuity: a nested tree (root with a registered head, `enc` with a hook-installed copy, `enc.sub` two levels
+    down with a plain tensor attribute and a private one), torch's `load_state_dict` as `pyLoadStateDict` -/
+example :
+    let saved : Tree := [([], ([(['h'], ([1], 3))], [(['t','r'], none)])),
+                         (['e','n','c'], ([], [(['w'], some ([2], 9))])),
+                         (['e','n','c','.','s','u','b'], ([(['b'], ([1], 4))], [(['k'], some ([3], 6)), (['_','p'], some ([1], 2))]))]
+    let fresh : Tree := [([], ([(['h'], ([1], 0))], [(['t','r'], none)])),
+                         (['e','n','c'], ([(['w'], ([2], 1))], [])),
+                         (['e','n','c','.','s','u','b'], ([(['b'], ([1], 0))], [(['k'], some ([3], 0)), (['_','p'], some ([1], 0))]))]
+    let hook : Tree → Tree := fun t => t.map fun ps =>
+      if ps.1 == ['e','n','c'] then (ps.1, ([], [(['w'], some ([2], 5))])) else ps
+    ∃ f1, pyLoadStateDict (false, hook fresh) (pyStateDict (false, saved)) = .ok (false, f1) ∧
+      (∀ x ∈ publicLocs saved, ∀ c ∈ x.1.2, c ≠ '.') ∧
+      ((publicLocs saved ++ regLocs saved).map (·.1)).Nodup ∧ ((publicEntries saved).map (·.1)).Nodup ∧
+      (∀ x ∈ regLocs saved, tensorAt f1 x.1.1 x.1.2 = some x.2) ∧
+      (∀ x ∈ publicLocs saved, ∃ cur, tensorAt f1 x.1.1 x.1.2 = some cur ∧ cur.1 = x.2.1) ∧
+      publicLocs saved = [((['e','n','c'], ['w']), ([2], 9)), ((['e','n','c','.','s','u','b'], ['k']), ([3], 6))] := by
+  refine ⟨_, rfl, ?_⟩
+  decide
+
+/-! ### the same over the GENERATED helpers -/
+
+/-- the three generated functions are the model's, for all inputs -/
+theorem C07_source_translation_helpers_eq :
+    (∀ m, CkptHelpGen.get_detached_tensors m = getDetached m) ∧
+    (∀ m d, CkptHelpGen.load_detached_tensors m d = loadDetached m d) ∧
+    (∀ sd : Dict Tensor, CkptHelpGen.remove_compile_prefix sd = removeCompilePrefix sd) :=
+  ⟨gen_get_detached_tensors_eq, gen_load_detached_tensors_eq, gen_remove_compile_prefix_eq⟩
+
+/-- (ii) over the generated `get_detached_tensors` -/
+theorem C07_source_translation_helpers_detached_exact (b : Bool) (t : Tree)
+    (hnd : ((publicEntries t).map (·.1)).Nodup) :
+    CkptHelpGen.get_detached_tensors (b, t) = publicEntries t ∧
+    ∀ key v, (key, v) ∈ CkptHelpGen.get_detached_tensors (b, t) ↔
+      ∃ ps ∈ t, ∃ nv ∈ ps.2.2, pyIsTensor nv.2 = true ∧ pyStartsWith nv.1 ['_'] = false ∧
+        key = dotKey ps.1 nv.1 ∧ v = nv.2 := by
+  rw [gen_get_detached_tensors_eq]
+  exact C07_helpers_detached_exact b t hnd
+
+/-- (i)+(iii) over the generated `get_detached_tensors` / `load_detached_tensors`: save → fresh construct → hooks →
+    `load_state_dict` → `load_detached_tensors` puts the saved value at every tensor of the module, registered or
+    detached, whatever the hooks installed -/
+theorem C07_source_translation_helpers_roundtrip (b : Bool) (saved fresh : Tree) (hook lsd : Tree → Tree)
+    (hdot : ∀ x ∈ publicLocs saved, ∀ c ∈ x.1.2, c ≠ '.')
+    (hnd : ((publicLocs saved ++ regLocs saved).map (·.1)).Nodup)
+    (hkeys : ((publicEntries saved).map (·.1)).Nodup)
+    (hreg : ∀ x ∈ regLocs saved, tensorAt (lsd (hook fresh)) x.1.1 x.1.2 = some x.2)
+    (htgt : ∀ x ∈ publicLocs saved, ∃ cur, tensorAt (lsd (hook fresh)) x.1.1 x.1.2 = some cur ∧ cur.1 = x.2.1) :
+    ∃ r, CkptHelpGen.load_detached_tensors (false, lsd (hook fresh))
+          (some (CkptHelpGen.get_detached_tensors (b, saved))) = .ok (false, r) ∧
+      ∀ x ∈ publicLocs saved ++ regLocs saved, tensorAt r x.1.1 x.1.2 = some x.2 := by
+  rw [gen_get_detached_tensors_eq, gen_load_detached_tensors_eq]
+  exact C07_helpers_roundtrip_all_tensors b saved fresh hook lsd hdot hnd hkeys hreg htgt
+
+/-- (iv) over the generated `remove_compile_prefix` -/
+theorem C07_source_translation_helpers_compile_prefix :
+    (∀ sd : Dict Tensor, CkptHelpGen.remove_compile_prefix (sd.map fun e => (origMod ++ '.' :: e.1, e.2)) = .ok (pyDictOf sd)) ∧
+    (∀ sd : Dict Tensor, (∀ e ∈ sd, pyStartsWith e.1 origMod = false) →
+      CkptHelpGen.remove_compile_prefix sd = .ok (pyDictOf sd)) := by
+  simp only [gen_remove_compile_prefix_eq]
+  exact ⟨removeCompilePrefix_compiled, removeCompilePrefix_plain⟩
+
+/-- the generated code on the concrete nested module: hook last loses the saved copy, the coded order keeps it -/
+theorem C07_source_translation_helpers_order_witness :
+    let saved : Tree := [([], ([(['h'], ([1], 3))], [])), (['e','n','c'], ([], [(['w'], some ([2], 9))]))]
+    let fresh : Tree := [([], ([(['h'], ([1], 0))], [])), (['e','n','c'], ([], [(['w'], some ([2], 1))]))]
+    let hook : Tree → Tree := fun t => treeCopy t ['e','n','c'] ['w'] ([2], 5)
+    let lsd : Tree → Tree := fun t => treeCopy t [] ['h'] ([1], 3)
+    CkptHelpGen.load_detached_tensors (false, lsd (hook fresh))
+        (some (CkptHelpGen.get_detached_tensors (false, saved))) = .ok (false, saved) ∧
+    CkptHelpGen.load_detached_tensors (false, lsd fresh)
+        (some (CkptHelpGen.get_detached_tensors (false, saved))) = .ok (false, saved) ∧
+    tensorAt (hook saved) ['e','n','c'] ['w'] = some ([2], 5) ∧ tensorAt saved ['e','n','c'] ['w'] = some ([2], 9) := by
+  refine ⟨?_, ?_, ?_, ?_⟩ <;> rfl
+
+end helpers
 end HeapCkpt
